@@ -1177,3 +1177,41 @@ Section FIdle.
       rewrite (Ho u Hu) in *. apply (f_pr _ _ _ R u c0 Hq Wc).
   Qed.
 End FIdle.
+
+Definition npcmd (c : cmd) : Prop := match c with CPSend _ _ | CPDrop _ | CRecv | CLSend _ | CCancel => False | _ => True end.
+
+Lemma f_idle_q : forall st st' m m' t c new,
+  FRel FNone st m -> f14_same m m' -> nthr st' = nthr st -> (forall u, u <> t -> thr st' u = thr st u) ->
+  tcont (thr st t) = [] -> tcur (thr st t) = None -> tcur (thr st' t) = Some c -> tpipe (thr st' t) = tpipe (thr st t) ->
+  (forall q, psendq (pps st' q) = psendq (pps st q) /\ pcancel (pps st' q) = pcancel (pps st q) /\
+             pexists (pps st' q) = pexists (pps st q) /\ (phandle (pps st' q) = true -> phandle (pps st q) = true)) ->
+  tcont (thr st' t) = new -> (forall j, In j new -> fq j) -> npcmd c ->
+  FRel FNone st' m'.
+Proof.
+  intros st st' m m' t c new R [M1 M2 M3 M4] Hn Ho Hc Hcu0 Hcu Htp Hpp Hc' Hnew Nc.
+  destruct (fq_list new Hnew) as [Cn [Sn Vn]].
+  assert (NoLate : forall mm, m14_late mm = m14_late m -> ~ is_late mm t).
+  { intros mm E L. unfold is_late in L. rewrite E in L. destruct (f_late_cur _ _ _ R t L) as [c0 [E0 _]]. rewrite Hcu0 in E0. discriminate E0. }
+  assert (Sp : forall q, spend q (mcont st') = spend q (mcont st)).
+  { intro q. unfold mcont. destruct (Nat.eq_dec main t) as [E|E]; [rewrite E, Hc', Hc, Sn; reflexivity|rewrite (Ho main E); reflexivity]. }
+  assert (Fqn : forall j, In j (tcont (thr st' t)) -> fq j) by (rewrite Hc'; exact Hnew).
+  apply (f_idle FNone st st' m m' t c R Hn Ho Hcu Htp Hpp M2 M3).
+  - intros u _. rewrite M4. reflexivity.
+  - intros u q x E. discriminate E.
+  - intros u q E. discriminate E.
+  - intros q Hq. unfold dps. rewrite M1, Sp. destruct (f_noex _ _ _ R q Hq) as [A [_ [_ [_ [_ [_ B]]]]]]. auto.
+  - intros u W. cbn zeta. unfold dps. rewrite M1, Sp. pose proof (f_ps _ _ _ R u W) as L. cbn zeta in L. unfold dps in L. rewrite L.
+    destruct (Nat.eq_dec u t) as [->|Hu]; [|rewrite (Ho u Hu); reflexivity].
+    unfold rtransit. rewrite Hc', Hc, Hcu, Hcu0, Vn. destruct c; try reflexivity. destruct Nc.
+  - intros _ L. exfalso. exact (NoLate m' M4 L).
+  - intros _ L. exfalso. exact (NoLate m' M4 L).
+  - intros m0 q x Hin. exfalso. exact (proj1 (proj2 (proj2 (proj2 (fq_facts _ (Fqn _ Hin))))) m0 q x eq_refl).
+  - intros q x E. subst c. destruct Nc.
+  - intros q E. subst c. destruct Nc.
+  - intros m0 q Hin. exfalso. exact (proj1 (proj2 (proj2 (proj2 (proj2 (fq_facts _ (Fqn _ Hin)))))) m0 q eq_refl).
+  - intro L. exfalso. exact (NoLate m' M4 L).
+  - intros m0 v Hin. exact (proj1 (proj2 (proj2 (proj2 (proj2 (proj2 (fq_facts _ (Fqn _ Hin))))))) m0 v eq_refl).
+  - intros j Hin. destruct (fq_facts _ (Fqn _ Hin)) as [_ [_ [_ [_ [_ [_ [Z1 [Z2 [Z3 Z4]]]]]]]]].
+    split; [intros m0 q [E|E]; exfalso; [exact (Z1 m0 q E)|exact (Z2 q E)]|split; [intros m0 q E; exfalso; exact (Z3 m0 q E)|intros m0 q x E; exfalso; exact (Z4 m0 q x E)]].
+  - intro Wc. exfalso. destruct c; try destruct Wc; destruct Nc.
+Qed.
